@@ -281,3 +281,54 @@ package types
 //@ func ErrRespJSON(w io.Writer, errList []ErrorInfo) (err error)
 //@   props C15
 //@   ensures [status] status(w) == (old(status(w)) == 0 ? 200 : old(status(w)))
+
+//@ -- the registered OCI error codes (C15)
+//@ func ErrInfoBlobUnknown(d string) (e ErrorInfo)
+//@   props C15
+//@   ensures [code] e.Code == "BLOB_UNKNOWN" && e.Detail == d
+//@ func ErrInfoBlobUploadInvalid(d string) (e ErrorInfo)
+//@   props C15
+//@   ensures [code] e.Code == "BLOB_UPLOAD_INVALID" && e.Detail == d
+//@ func ErrInfoBlobUploadUnknown(d string) (e ErrorInfo)
+//@   props C15
+//@   ensures [code] e.Code == "BLOB_UPLOAD_UNKNOWN" && e.Detail == d
+//@ func ErrInfoDigestInvalid(d string) (e ErrorInfo)
+//@   props C15
+//@   ensures [code] e.Code == "DIGEST_INVALID" && e.Detail == d
+//@ func ErrInfoManifestBlobUnknown(d string) (e ErrorInfo)
+//@   props C15
+//@   ensures [code] e.Code == "MANIFEST_BLOB_UNKNOWN" && e.Detail == d
+//@ func ErrInfoManifestInvalid(d string) (e ErrorInfo)
+//@   props C15
+//@   ensures [code] e.Code == "MANIFEST_INVALID" && e.Detail == d
+//@ func ErrInfoManifestUnknown(d string) (e ErrorInfo)
+//@   props C15
+//@   ensures [code] e.Code == "MANIFEST_UNKNOWN" && e.Detail == d
+//@ func ErrInfoNameInvalid(d string) (e ErrorInfo)
+//@   props C15
+//@   ensures [code] e.Code == "NAME_INVALID" && e.Detail == d
+//@ func ErrInfoNameUnknown(d string) (e ErrorInfo)
+//@   props C15
+//@   ensures [code] e.Code == "NAME_UNKNOWN" && e.Detail == d
+//@ func ErrInfoSizeInvalid(d string) (e ErrorInfo)
+//@   props C15
+//@   ensures [code] e.Code == "SIZE_INVALID" && e.Detail == d
+//@ func ErrInfoUnauthorized(d string) (e ErrorInfo)
+//@   props C15
+//@   ensures [code] e.Code == "UNAUTHORIZED" && e.Detail == d
+//@ func ErrInfoDenied(d string) (e ErrorInfo)
+//@   props C15
+//@   ensures [code] e.Code == "DENIED" && e.Detail == d
+//@ func ErrInfoUnsupported(d string) (e ErrorInfo)
+//@   props C15
+//@   ensures [code] e.Code == "UNSUPPORTED" && e.Detail == d
+//@ func ErrInfoTooManyRequests(d string) (e ErrorInfo)
+//@   props C15
+//@   ensures [code] e.Code == "TOOMANYREQUESTS" && e.Detail == d
+
+//@ func MediaTypeImage(mt string) (ok bool)
+//@   props C04
+//@   ensures ok <==> (mt == MediaTypeDocker2Manifest || mt == MediaTypeOCI1Manifest)
+//@ func MediaTypeIndex(mt string) (ok bool)
+//@   props C04
+//@   ensures ok <==> (mt == MediaTypeDocker2ManifestList || mt == MediaTypeOCI1ManifestList)
